@@ -123,7 +123,8 @@ package types
 //@   trusted
 //@   returns err
 //@   requires len(coins) == 1
-//@   ensures ok:  (err == nil) == (ufb("denom_valid", coins[0].Denom) && coins[0].Amount > 0)
+// (sdk.NewCoins drops a zero coin and the empty Coins value is valid: a single well-formed coin is always accepted)
+//@   ensures ok:  ufb("denom_valid", coins[0].Denom) && coins[0].Amount >= 0 ==> err == nil
 //@ end
 
 // What genesis export can contain (module invariants of the keeper: ruleOK, poolOK, debtOK, the pool sequence is the
@@ -132,7 +133,7 @@ package types
 //@ define exportableRule(pl, r) = ufb("denom_valid", r.Reward) && r.TotalReward > 0 && r.RemainingReward >= 0 && r.RewardPerBlock > 0
 //@        && !isnil(r.RewardPerShare) && (raw(r.RewardPerShare) > 0 || r.RemainingReward == r.TotalReward || pl.EndHeight == pl.LastHeightDistrRewards)
 //@ define exportablePool(pl, maxseq) = ufb("pool_id_ok", pl.Id) && uf("pool_id_seq", pl.Id) <= maxseq && ufb("description_ok", pl.Description) && bechok(pl.Creator)
-//@        && ufb("denom_valid", pl.TotalLptLocked.Denom) && pl.TotalLptLocked.Amount > 0
+//@        && ufb("denom_valid", pl.TotalLptLocked.Denom) && pl.TotalLptLocked.Amount >= 0
 //@        && (forall j:Int :: 0 <= j && j < len(pl.Rules) ==> exportableRule(pl, pl.Rules[j]))
 //@ define exportableInfo(f) = ufb("pool_id_ok", f.PoolId) && bechok(f.Address) && f.Locked > 0 && ufb("coins_valid", coinsof(f.RewardDebt))
 
@@ -140,7 +141,7 @@ package types
 // that is stricter than the invariants the keeper maintains turns an export into a chain that cannot restart)
 //@ define exportable(data) = (forall i:Int :: 0 <= i && i < len(data.Pools) ==> exportablePool(data.Pools[i], data.Sequence))
 //@                        && (forall i:Int :: 0 <= i && i < len(data.FarmInfos) ==> exportableInfo(data.FarmInfos[i]))
-//@                        && ufb("denom_valid", data.Params.PoolCreationFee.Denom) && data.Params.PoolCreationFee.Amount > 0
+//@                        && ufb("denom_valid", data.Params.PoolCreationFee.Denom) && data.Params.PoolCreationFee.Amount >= 0
 //@ func ValidateGenesis
 //@   property C12
 //@   returns err
